@@ -248,6 +248,44 @@ __CPROVER_loop_invariant(__i1 <= __r1->size && __r1 == &self->children_ && g_res
 __CPROVER_decreases(__r1->size - __i1)
 ''',
 }
+# ---------------------------------------------------------------- parallel: stop / pause every child that needs it
+PRE_P = r'''
+typedef struct flow_Action Act; typedef struct flow_ParallelAction Par;
+#define T(x) ((x) != 0)
+enum { IDLE = 0, RUNNING = 1, PAUSE = 2, FINISHED = 3, STOPED = 4 };
+static Act *g_child;                   /* every child read out of children_ is this (abstract) child; its state is arbitrary per visit */
+static int g_st; static _Bool g_acted; static size_t g_visits;
+'''
+EXT_P = r'''
+_Bool Act_stop(Act *self)
+__CPROVER_requires(self == g_child)
+__CPROVER_assigns(g_acted, g_child->state_)
+__CPROVER_ensures(g_acted == 1 && g_child->state_ >= 0 && g_child->state_ <= 4)
+;
+_Bool Act_pause(Act *self)
+__CPROVER_requires(self == g_child)
+__CPROVER_assigns(g_acted, g_child->state_)
+__CPROVER_ensures(g_acted == 1 && g_child->state_ >= 0 && g_child->state_ <= 4)
+;
+'''
+def PAR(fn, needs):
+    return {('contract', fn): r'''
+__CPROVER_requires(__CPROVER_is_fresh(self, sizeof(*self)) && self->children_.size < V_MAXSZ && __CPROVER_is_fresh(g_child, sizeof(Act)))
+__CPROVER_assigns(g_st, g_acted, g_visits, g_child->state_, v_vec_flow_Actionp_cell)
+__CPROVER_ensures(g_visits == self->children_.size)                                 /* every child is looked at */
+''',
+            ('ghost', fn, 'entry'): 'g_visits = 0;',
+            ('loop', fn, 1): r'''
+__CPROVER_assigns(__i1, g_st, g_acted, g_visits, g_child->state_, v_vec_flow_Actionp_cell)
+__CPROVER_loop_invariant(__i1 <= __r1->size && __r1 == &self->children_ && g_visits == __i1)
+__CPROVER_decreases(__r1->size - __i1)
+''',
+            ('ghost', fn, 'loop_body_start:1'): '{ int st; __CPROVER_assume(st >= 0 && st <= 4); g_st = st; g_child->state_ = st; g_acted = 0; g_visits++; }',
+            ('ghost', fn, 'loop_body_end:1'): '__CPROVER_assert(T(g_acted) || !(%s), "no child that is %s is skipped");' % needs}
+SPEC_P = {('prelude_early',): EARLY + 'struct flow_Action; static struct flow_Action *g_child;\n', ('prelude',): PRE_P.replace('static Act *g_child;', ''), ('after_protos',): EXT_P, ('stub', 'Act_stop'): True, ('stub', 'Act_pause'): True}
+SPEC_P.update(PAR('Par_stopAllActions', ('g_st == RUNNING || g_st == PAUSE', 'running or paused')))
+SPEC_P.update(PAR('Par_pauseAllActions', ('g_st == RUNNING', 'running')))
+R.update({'flow_ParallelAction_stopAllActions': 'Par_stopAllActions', 'flow_ParallelAction_pauseAllActions': 'Par_pauseAllActions'})
 H = lambda body: '\nvoid H(void)\n{\n' + body + '\n  __CPROVER_assert(0, "VACUITY-CANARY");\n}\n'
 def COMMON(tu, spec): return dict(tu=tu, filter='tbox::flow', more_filters=[(tu, 'tbox::event')], rename=R, spec=spec, clang_flags=['-fdelayed-template-parsing'],
     plugins=[StdFunction(), StdVector(abstract={'struct flow_Action *': 'x != 0', 'struct flow_Action_Who': '1'}), Chrono(abstract_time=True), StringStreamSink(), OpaqueString(), OpaqueTypes({r'^(tbox::)?util::Variables$': 'v_vars'})],
@@ -284,6 +322,10 @@ UNITS = [
   UnitSpec(name='sequence_reset', emit=[N + 'SequenceAction::onReset'], targets=[
       Target('onReset', H('  Seq *s; Seq_onReset(s);'), enforce='Seq_onReset', replace=['Act_reset', 'Ser_onReset'], clause='sequence reset: index 0, every child reset exactly once, then the base class')],
       **COMMON('modules/flow/actions/sequence_action.cpp', SPEC_Q)),
+  UnitSpec(name='parallel_all', emit=[N + 'ParallelAction::stopAllActions', N + 'ParallelAction::pauseAllActions'], targets=[
+      Target('stopAllActions', H('  Par *p; Par_stopAllActions(p);'), enforce='Par_stopAllActions', replace=['Act_stop', 'Act_pause'], clause='parallel stop: no running or paused child is left out'),
+      Target('pauseAllActions', H('  Par *p; Par_pauseAllActions(p);'), enforce='Par_pauseAllActions', replace=['Act_stop', 'Act_pause'], clause='parallel pause: no running child is left out')],
+      **dict(COMMON('modules/flow/actions/parallel_action.cpp', SPEC_P), plugins=[StdFunction(), StdVector(abstract={'struct flow_Action *': 'x == g_child', 'struct flow_Action_Who': '1'}), Chrono(abstract_time=True), StringStreamSink(), OpaqueString(), OpaqueTypes({r'^(tbox::)?util::Variables$': 'v_vars', r'^std::map<.*>$': 'v_map'})])),
 ]
 def native_replay(u, t, o, w, workdir):
     import replay as rp
